@@ -63,9 +63,9 @@ fn c18_adaptive_node_becomes_server_at_the_refresh_iff_not_firewalled() {
     a.core.last_table_ping = clock::ago_ms(ping_age);
     let empty: bool = kani::any();
     if !empty {
-        crate::common::routing_table::verif_kani::place_pub(
+        crate::common::verif_kani::routing_table::place_pub(
             &mut a.core.routing_table,
-            crate::common::node::verif_kani::node_aged(crate::core::verif_kani::id1(0x10), SocketAddrV4::new(9u32.into(), 9), 0),
+            crate::common::verif_kani::node::node_aged(crate::core::verif_kani::id1(0x10), SocketAddrV4::new(9u32.into(), 9), 0),
         );
     }
     a.periodic_node_maintaenance();
